@@ -251,10 +251,12 @@ pub fn run_case(case: &Case) -> CaseOut {
                 finished[tid] = fin;
             }
             Err(_) => {
-                oracle.push(format!("C18 step {step_no}: thread {tid} did not complete its step (deadlock or panic)"));
+                oracle.push(format!("C18 step {step_no}: thread {tid} did not complete its step within 10 s (deadlock)"));
                 obs.push("STUCK".to_string());
-                finished[tid] = true;
-                continue;
+                // the thread may hold the table lock for good: nothing that takes it (table_len, the joins below) can be
+                // called again in this process; abandon the case like a poisoned table
+                poisoned = true;
+                break;
             }
         }
         let len = match std::panic::catch_unwind(hook::table_len) {
@@ -398,12 +400,15 @@ pub fn enumerate_schedules(progs: &[Vec<IOp>], limit: usize) -> Vec<Vec<usize>> 
 pub fn soak(seed: u64, threads: usize, ops: usize) -> Vec<String> {
     hook::set_yield_callback(None);
     let mut joins = Vec::new();
+    let progress = std::sync::Arc::new(std::sync::atomic::AtomicU64::new(0));
     for t in 0..threads {
         let mut rng = Rng::new(seed.wrapping_mul(1000).wrapping_add(t as u64));
+        let progress = progress.clone();
         joins.push(std::thread::spawn(move || -> Vec<String> {
             let mut bad = Vec::new();
             let mut held: Vec<(SharedString, u64)> = Vec::new();
             for _ in 0..ops {
+                progress.fetch_add(1, std::sync::atomic::Ordering::Relaxed);
                 match rng.below(3) {
                     0 => {
                         let c = rng.below(3);
@@ -432,6 +437,22 @@ pub fn soak(seed: u64, threads: usize, ops: usize) -> Vec<String> {
         }));
     }
     let mut out = Vec::new();
+    // watchdog: the threads only ever block on the intern table; no operation completed anywhere for 20 s = deadlock.
+    // Nothing that takes the table lock can be called after that, so the verdict is printed and the process ends.
+    let (mut last, mut since) = (0u64, std::time::Instant::now());
+    while !joins.iter().all(|j| j.is_finished()) {
+        std::thread::sleep(Duration::from_millis(100));
+        let now = progress.load(std::sync::atomic::Ordering::Relaxed);
+        if now != last {
+            last = now;
+            since = std::time::Instant::now();
+        } else if since.elapsed() > Duration::from_secs(20) {
+            let blocked = joins.iter().filter(|j| !j.is_finished()).count();
+            println!("C18 soak: no SharedString operation completed for 20 s with {blocked} of {threads} threads still running after {now} operations (deadlock)");
+            println!("soak done violations=1");
+            std::process::exit(0);
+        }
+    }
     for j in joins {
         match j.join() {
             Ok(b) => out.extend(b),
